@@ -63,17 +63,17 @@ def run(ctx):
                 "non-trivial = the sequence contains at least two different requests")
     ctx.assumptions = ["observations of different inputs agree where both are present"]
     if ctx.tier == "quick":
-        res = tlc.run("MC_DataImpl", "MC_DataImpl_C18QuickL2", tag=ctx.pid + "_model", timeout_s=900)
+        res = tlc.run("MC_DataImpl", "MC_DataImpl_C18QuickL2", tag=ctx.pid + "_model", timeout_s=900, require_emit=False)
         ctx.add_tlc("MC_DataImpl_C18QuickL2 (all sequences <= 2 over the 36-request menu, 16 datasets)", res, {"MaxLen": 2})
-        res = tlc.run("MC_DataImpl", "MC_DataImpl_C18OneL3", tag=ctx.pid + "_model1", timeout_s=900)
+        res = tlc.run("MC_DataImpl", "MC_DataImpl_C18OneL3", tag=ctx.pid + "_model1", timeout_s=900, require_emit=False)
         ctx.add_tlc("MC_DataImpl_C18OneL3 (all sequences <= 3, 1 dataset)", res, {"MaxLen": 3})
         _replay_cfg(ctx, "MC_DataImpl_C18EmitL2", limit=6000, record=1000)
         _replay_cfg(ctx, "MC_DataImpl_C18EmitL3", limit=3000, record=500)
         _replay_cfg(ctx, "MC_DataImpl_C18EmitMix", limit=4000, record=500)
     else:
-        res = tlc.run("MC_DataImpl", "MC_DataImpl_C18QuickFixed", tag=ctx.pid + "_model", timeout_s=900)
+        res = tlc.run("MC_DataImpl", "MC_DataImpl_C18QuickFixed", tag=ctx.pid + "_model", timeout_s=900, require_emit=False)
         ctx.add_tlc("MC_DataImpl_C18QuickFixed (all sequences <= 3, 16 datasets)", res, {"MaxLen": 3})
-        res = tlc.run("MC_DataImpl", "MC_DataImpl_C18MixFixed", tag=ctx.pid + "_model2", timeout_s=1500)
+        res = tlc.run("MC_DataImpl", "MC_DataImpl_C18MixFixed", tag=ctx.pid + "_model2", timeout_s=1500, require_emit=False)
         ctx.add_tlc("MC_DataImpl_C18MixFixed (obs-less input, climatology, -obsrange)", res, {"MaxLen": 3})
         _replay_cfg(ctx, "MC_DataImpl_C18EmitL2")
         _replay_cfg(ctx, "MC_DataImpl_C18EmitL2", fmt="netcdf")
